@@ -279,6 +279,28 @@ func evalAPI(cs CaseAPI) Result {
 	_, eh = sipsp.URIHdrsEq(a, clampOffs(cs.N1, len(a)), b, clampOffs(cs.N2, len(b)))
 	_ = eh.Error()
 	_ = sipsp.URIParamResolve(a)
+	// list comparison on caller-supplied arrays of any capacity (incl. smaller than the lists)
+	for _, caps := range [][2]int{{cs.N1 % 4, cs.N2 % 4}, {cs.N2 % 3, 8}, {8, cs.N1 % 3}} {
+		var p1, p2 sipsp.URIParamsLst
+		p1.Init(make([]sipsp.URIParam, caps[0]))
+		p2.Init(make([]sipsp.URIParam, caps[1]))
+		_, _, ea := sipsp.ParseAllURIParams(a, 0, &p1, sipsp.POptTokURIParamF|sipsp.POptInputEndF)
+		_, _, eb := sipsp.ParseAllURIParams(b, 0, &p2, sipsp.POptTokURIParamF|sipsp.POptInputEndF)
+		if (ea == 0 || ea == sipsp.ErrHdrEOH) && (eb == 0 || eb == sipsp.ErrHdrEOH) {
+			sipsp.URIParamsLstEq(&p1, a, &p2, b)
+			sipsp.URIParamsLstEq(&p2, b, &p1, a)
+			sipsp.URIParamsLstEq(&p1, a, &p1, a)
+		}
+		var h1, h2 sipsp.URIHdrsLst
+		h1.Init(make([]sipsp.URIHdr, caps[0]))
+		h2.Init(make([]sipsp.URIHdr, caps[1]))
+		_, _, ea = sipsp.ParseAllURIHdrs(a, 0, &h1, sipsp.POptTokURIHdrF|sipsp.POptInputEndF)
+		_, _, eb = sipsp.ParseAllURIHdrs(b, 0, &h2, sipsp.POptTokURIHdrF|sipsp.POptInputEndF)
+		if (ea == 0 || ea == sipsp.ErrHdrEOH) && (eb == 0 || eb == sipsp.ErrHdrEOH) {
+			sipsp.URIHdrsLstEq(&h1, a, &h2, b)
+			sipsp.URIHdrsLstEq(&h2, b, &h1, a)
+		}
+	}
 	// IP
 	var d4 [4]byte
 	var d16 [16]byte
@@ -347,7 +369,29 @@ func clampOffs(n, l int) int {
 }
 
 func genAPIString(t *rapid.T, label string) B {
-	switch weighted(t, label+"_k", 4, 2, 2, 2, 1) {
+	switch weighted(t, label+"_k", 4, 2, 2, 2, 1, 3, 1) {
+	case 5: // a well-formed ';' list with distinct names (reaches the comparison loops)
+		var w []byte
+		n := rapid.IntRange(1, 6).Draw(t, label+"_np")
+		for i := 0; i < n; i++ {
+			if i > 0 {
+				w = append(w, ';')
+			}
+			w = append(w, pick(t, label+"_pn", "transport", "user", "ttl", "maddr", "lr", "method", "a", "b", "c", "dd", "x1")...)
+			if rapid.Bool().Draw(t, label+"_pe") {
+				w = append(w, '=')
+				w = append(w, genFrom(t, label+"_pv", "abc123", 0, 4)...)
+			}
+		}
+		return w
+	case 6: // more parameters than the 100-element internal arrays
+		var w []byte
+		w = append(w, "sip:h"...)
+		n := rapid.IntRange(99, 104).Draw(t, label+"_many")
+		for i := 0; i < n; i++ {
+			w = append(w, fmt.Sprintf(";p%d=%d", i+rapid.IntRange(0, 1).Draw(t, label+"_sh"), i)...)
+		}
+		return w
 	case 0:
 		return mutate(t, genURIFull(t), 2)
 	case 1:
